@@ -2,6 +2,7 @@ package journal
 
 import (
 	"fmt"
+	"sort"
 
 	"github.com/sboehler/knut/lib/amounts"
 	"github.com/sboehler/knut/lib/common/compare"
@@ -13,6 +14,7 @@ import (
 	"github.com/sboehler/knut/lib/model/posting"
 	"github.com/sboehler/knut/lib/model/price"
 	"github.com/sboehler/knut/lib/model/transaction"
+	"github.com/sboehler/knut/lib/syntax"
 	"github.com/shopspring/decimal"
 )
 
@@ -174,14 +176,42 @@ func CloseAccounts(j *Builder, reg *model.Registry, enable bool, partition date.
 	}
 }
 
-// Sort sorts the directives in this day.
+// Sort sorts the directives in this day. Transactions are ordered by their
+// content. The other directives of a day keep the order in which they appear
+// in their file; directives from different files arrive in the order in which
+// the files happen to be loaded, so they are ordered by file and position.
+// Directives without a source (created by an importer) are not reordered.
 func Sort() *Processor {
 	return &Processor{
 		DayEnd: func(d *Day) error {
 			compare.Sort(d.Transactions, transaction.Compare)
+			sort.SliceStable(d.Prices, func(i, j int) bool {
+				a, b := d.Prices[i].Src, d.Prices[j].Src
+				return a != nil && b != nil && sourceBefore(a.Range, b.Range)
+			})
+			sort.SliceStable(d.Openings, func(i, j int) bool {
+				a, b := d.Openings[i].Src, d.Openings[j].Src
+				return a != nil && b != nil && sourceBefore(a.Range, b.Range)
+			})
+			sort.SliceStable(d.Assertions, func(i, j int) bool {
+				a, b := d.Assertions[i].Src, d.Assertions[j].Src
+				return a != nil && b != nil && sourceBefore(a.Range, b.Range)
+			})
+			sort.SliceStable(d.Closings, func(i, j int) bool {
+				a, b := d.Closings[i].Src, d.Closings[j].Src
+				return a != nil && b != nil && sourceBefore(a.Range, b.Range)
+			})
 			return nil
 		},
 	}
+}
+
+// sourceBefore reports whether a comes before b in the source files.
+func sourceBefore(a, b syntax.Range) bool {
+	if a.Path != b.Path {
+		return a.Path < b.Path
+	}
+	return a.Start < b.Start
 }
 
 type Collection interface {
